@@ -86,12 +86,13 @@ def matches_flat(d, lk):
     if d[0] != "leaf":
         return False
     pk = d[1][0]
+    # bool is a subclass of int; a float is not an int, even when it compares equal to one
     if lk == "int":
-        return pk == "i"
+        return pk in ("i", "b")
     if lk == "str":
         return pk == "s"
     if lk == "union":
-        return pk in ("i", "s")
+        return pk in ("i", "s", "b")
     if lk == "array":
         return pk == "a"
     raise AssertionError(lk)
@@ -125,6 +126,10 @@ def model(lk, meanings, desc, m: dl.MCtx):
 
 
 def payload_value(p):
+    if p[0] == "f":
+        return float(p[1])
+    if p[0] == "b":
+        return bool(p[1])
     if p[0] == "i":
         return p[1]
     if p[0] == "s":
@@ -265,13 +270,16 @@ def c08_case(draw):
     else:
         case["tokens"] = []
         for _ in range(nl):
-            wrong = gd.chance(draw, 0.1)
+            wrong = gd.chance(draw, 0.14)
+            small = st.integers(0, 2)  # 1 == 1.0 == True: equal-comparing scalars of different types
             if lk == "int":
-                payloads.append(("s", draw(strs)) if wrong else ("i", draw(ints)))
+                payloads.append(draw(st.sampled_from([("f", draw(small)), ("s", draw(strs)), ("f", draw(small))])) if wrong
+                                else draw(st.sampled_from([("i", draw(small)), ("i", draw(ints)), ("b", draw(small) % 2), ("i", draw(small))])))
             elif lk == "str":
                 payloads.append(("i", draw(ints)) if wrong else ("s", draw(strs)))
             elif lk in ("union", "union-bar"):
-                payloads.append(("a", [2]) if wrong else draw(st.one_of(ints.map(lambda v: ("i", v)), strs.map(lambda v: ("s", v)))))
+                payloads.append(draw(st.sampled_from([("f", draw(small)), ("a", [2])])) if wrong
+                                else draw(st.one_of(small.map(lambda v: ("i", v)), strs.map(lambda v: ("s", v)), ints.map(lambda v: ("i", v)))))
             elif lk == "pair":
                 r = draw(st.integers(0, 9))
                 if r <= 6:
